@@ -265,7 +265,25 @@ pub fn run_flat(
             cases.push(json!({"group": g.name, "start": st, "end": en}));
             st = en;
         }
-        let res = run_cases(engine, &params, &cases, timeout_s);
+        // the cases of a group run in batches so that the wall-clock cap can stop a group in the middle; what was
+        // covered is then reported as a prefix of the group's index space
+        let batch = 16 * 64;
+        let mut res: Vec<CaseRes> = vec![];
+        let mut covered_cases = 0usize;
+        for b in cases.chunks(batch) {
+            if Instant::now() > deadline {
+                break;
+            }
+            res.extend(run_cases(engine, &params, b, timeout_s));
+            covered_cases += b.len();
+        }
+        let capped_at: Option<u64> = if covered_cases < cases.len() {
+            exhaustive = false;
+            Some(cases.get(covered_cases).map(|c| c["start"].as_u64().unwrap_or(0)).unwrap_or(g.size))
+        } else {
+            None
+        };
+        let cases = cases[..covered_cases].to_vec();
         let mut g_eval = 0u64;
         let mut g_non = 0u64;
         let mut g_fail = 0usize;
@@ -336,8 +354,8 @@ pub fn run_flat(
         }
         total_eval += g_eval;
         total_nontrivial += g_non;
-        per_group.push(json!({"group": g.name, "what": g.what, "size": g.size, "evaluations": g_eval, "nontrivial": g_non, "failures": g_fail, "wall_s": (t0.elapsed().as_secs_f64()*100.0).round()/100.0}));
-        eprintln!("[{property}] {}: {} inputs, {} evaluations, {} failures, {:.1}s", g.name, g.size, g_eval, g_fail, t0.elapsed().as_secs_f64());
+        per_group.push(json!({"group": g.name, "what": g.what, "size": g.size, "evaluations": g_eval, "nontrivial": g_non, "failures": g_fail, "wall_s": (t0.elapsed().as_secs_f64()*100.0).round()/100.0, "cap": capped_at.map(|c| format!("wall-clock cap reached: inputs [0, {c}) of {} covered completely, the rest not run", g.size))}));
+        eprintln!("[{property}] {}: {} inputs, {} evaluations, {} failures, {:.1}s{}", g.name, g.size, g_eval, g_fail, t0.elapsed().as_secs_f64(), capped_at.map(|c| format!(" CAP: covered [0, {c})")).unwrap_or_default());
     }
     for (id, (n, first)) in &known {
         println!("KNOWN-FINDING: property={property} {id} {} [re-observed {n} times; first: {}]", texts.get(id).cloned().unwrap_or_default(), first.chars().take(300).collect::<String>());
